@@ -203,18 +203,13 @@ def run_shard(spec, shard):
         g = Q.QGen(r, names=list(dict.fromkeys(dn))[:8] + names[:2], strings=list(dict.fromkeys(ds))[:6] + ["a", ""],
                    registry=reg, filters=True, max_filter_depth=2, numbers=dnum[:8])
         g.doc = doc
+        g.evalr = ev.Evaluator(reg)
         base = g.guided_query(doc, 0, 2, hit_p=0.9)
-        # the filter under test: built around at least one call
-        cursor_kids = None
-        expr = None
-        for _ in range(6):
-            e = g.logical(1, 3)
-            if "call" in Q.features(["q", "$", [["child", [["filter", e]]]]]):
-                expr = e
-                break
-        if expr is None:
+        # the filter under test: built around at least one call, guided by a node the base reaches
+        seg = diff.guided_filter_segment(r, g, base[2], doc, registry=reg, need="call", tries=10)
+        if seg is None:
             return
-        ast = ["q", "$", base[2] + [[r.choice(["child", "child", "desc"]), [["filter", expr]]]]]
+        ast = ["q", "$", base[2] + [seg]]
         if diff.arg_starts_with_not_or_paren(ast):
             shard.excluded["R:function-argument-starting-with-!-or-("] += 1
             return
